@@ -10,7 +10,6 @@ NOT_APPLICABLE = {
     'C12': 'not yet wired (in progress this session)',
     'C13': 'not yet wired (in progress this session)',
     'C14': 'quantifies over crash points inside std::fs / csv::Writer streaming; a function contract relates pre- and post-state of a completed call only, so no contract within reach expresses it',
-    'C17': 'not yet wired (in progress this session)',
     'C18': 'not yet wired (in progress this session)',
     'C19': 'not yet wired (in progress this session)',
     'C20': 'not yet wired (in progress this session)',
